@@ -45,7 +45,7 @@ def gen_cases(seed, tier):
                 sub = trail[part::k]
                 if sub:
                     cases.append({"cls": "truncate", "nc": nc, "frames": fr, "trailing": sub, "seed": seed, "_w": len(sub) * (1 + nc / 100) / 60})
-    for i in range(3 if tier == "quick" else 20):
+    for i in range(6 if tier == "quick" else 40):
         cases.append({"cls": "cbin-short", "seed": seed * 100 + i, "_w": 2})
     return cases
 
@@ -135,7 +135,7 @@ def run_case(case):
         kind = str(rng.choice(["3B2", "NP2.1"]))
         n = int(rng.choice([384, 40]))
         ns_real = int(rng.integers(50, 800))
-        claim = ns_real + int(rng.integers(1, 5000))
+        claim = ns_real + int(rng.integers(1, 5000)) if rng.random() < 0.7 else max(1, ns_real - int(rng.integers(1, 40)))      # shorter (or longer) than announced
         rec = G.make(rng, kind=kind, sites=G.draw_sites(rng, kind, n, "dense"), ns=ns_real, content="random")
         b = G.write(rec, d)
         try:
